@@ -10,7 +10,11 @@
   `st.inflow.conn = &sc.inflow`: `st.inflow.available()` = min of both, `st.inflow.take` debits both.
 
   The fields after `dead` are GHOST counters: no transition reads them; they only record what happened
-  to every octet, so that the credit identity can be stated exactly (Props: `C33_credit_exact`).
+  to every octet, so that the credit identity can be stated exactly (Props: `C33_credit`).
+
+  This is the code AFTER fix C33-conn-credit (fixes/C33-conn-credit.md): over-declared DATA, DATA for a
+  body the handler closed, and octets still buffered when a stream is closed are all credited back to
+  the connection window.
 -/
 namespace BfeVerif.C33
 
@@ -43,9 +47,6 @@ structure St where
   wu0 : Int := 0             -- Σ increments of connection-level WINDOW_UPDATEs sent
   held : Int := 0            -- octets in body pipes that a handler can still read
   rej : Int := 0             -- Σ Length of DATA frames refused with FLOW_CONTROL_ERROR
-  leakOD : Int := 0          -- frames beyond the declared content-length: neither debited nor credited
-  leakBC : Int := 0          -- debited, then dropped because the handler had closed the body
-  leakUC : Int := 0          -- buffered octets dropped unread when the stream/handler went away
 deriving Repr
 
 inductive Fr where
@@ -68,25 +69,23 @@ def find (l : List Stream) (id : Nat) : Option Stream := l.find? (·.id == id)
 
 def upd (l : List Stream) (x : Stream) : List Stream := l.map fun y => if y.id == x.id then x else y
 
-/-- the request-body buffer comes from the fixed 65535-byte pool and is released by closeStream
-    (`st.defaultStreamWindow()`), otherwise it stays readable for a running handler -/
-def St.pooled (s : St) : Bool := s.isw == 65535
-
-/-- `closeStream` (only called for streams still in `sc.streams`) -/
-def closeStream (s : St) (x : Stream) : St :=
-  let drop : Nat := if x.hasPipe && s.pooled then x.buf else 0
-  let x' := { x with st := .closed, bodyErr := true, buf := x.buf - drop }
-  { s with streams := upd s.streams x', held := s.held - (drop : Int), leakUC := s.leakUC + (drop : Int) }
-
-/-- `resetStream(se)`: RST_STREAM frame, and closeStream if the stream is still in `sc.streams` -/
-def resetStream (s : St) (id : Nat) : St :=
-  match find s.streams id with
-  | some x => if x.st != .closed then closeStream s x else s
-  | none => s
-
 /-- `sendWindowUpdate(nil, n)` for 0 ≤ n < 2^31: a frame iff n > 0, and `sc.inflow.add(n)` -/
 def wuConn (s : St) (n : Nat) : List Fr × St :=
   if n == 0 then ([], s) else ([.wu 0 n], { s with conn := s.conn + n, wu0 := s.wu0 + n })
+
+/-- `closeStream` (only called for streams still in `sc.streams`): the body pipe is closed, its unread
+    octets are discarded (`p.Discard()`) and credited back to the connection window -/
+def closeStream (s : St) (x : Stream) : List Fr × St :=
+  let drop : Nat := if x.hasPipe then x.buf else 0
+  let x' := { x with st := .closed, bodyErr := true, buf := 0 }
+  wuConn { s with streams := upd s.streams x', held := s.held - (drop : Int) } drop
+
+/-- `resetStream(se)` after the RST_STREAM frame was queued: closeStream if the stream is still in
+    `sc.streams` -/
+def resetStream (s : St) (id : Nat) : List Fr × St :=
+  match find s.streams id with
+  | some x => if x.st != .closed then closeStream s x else ([], s)
+  | none => ([], s)
 
 def frameLen (dlen : Nat) (pad : Option Nat) : Nat :=
   match pad with
@@ -98,11 +97,25 @@ def availOf (conn n : Int) : Int := if conn < n then conn else n
 
 /-- `processData`, stream not in `sc.streams` / not open: connection-level accounting only -/
 def dataClosed (s : St) (id L : Nat) : List Fr × St :=
-  if s.conn < (L : Int) then ([.rst id 3], resetStream { s with rej := s.rej + L } id)
+  if s.conn < (L : Int) then
+    let r := resetStream { s with rej := s.rej + L } id
+    ([.rst id 3] ++ r.1, r.2)
   else
     -- sc.inflow.take(L); sc.sendWindowUpdate(nil, L)
-    let r := wuConn { s with conn := s.conn - L } L
-    (r.1 ++ [.rst id 5], resetStream r.2 id)
+    let w := wuConn { s with conn := s.conn - L } L
+    let r := resetStream w.2 id
+    (w.1 ++ [.rst id 5] ++ r.1, r.2)
+
+/-- `processData`, open stream, DATA beyond the declared content-length: connection-level accounting,
+    RST_STREAM(PROTOCOL_ERROR) first, then the credit -/
+def dataOverDeclared (s : St) (id L : Nat) : List Fr × St :=
+  if s.conn < (L : Int) then
+    let r := resetStream { s with rej := s.rej + L } id
+    ([.rst id 3] ++ r.1, r.2)
+  else
+    let r := resetStream { s with conn := s.conn - L } id
+    let w := wuConn r.2 L
+    ([.rst id 1] ++ r.1 ++ w.1, w.2)
 
 /-- `processData`, open stream, frame within the declared length, `Length > 0`, window check passed:
     debit both windows, write to the body pipe, refund the padding, END_STREAM -/
@@ -110,8 +123,11 @@ def dataAccept (s : St) (x : Stream) (dlen L : Nat) (endS : Bool) : List Fr × S
   let s1 := { s with conn := s.conn - L }
   let x1 := { x with inflow := x.inflow - L }
   if dlen > 0 && x1.bodyErr then
-    -- st.body.Write fails (pipe closed by the handler): StreamError STREAM_CLOSED, nothing refunded
-    ([.rst x.id 5], resetStream { s1 with streams := upd s1.streams x1, leakBC := s1.leakBC + L } x.id)
+    -- st.body.Write fails (pipe closed by the handler, wrote = 0): the whole frame is credited back,
+    -- StreamError STREAM_CLOSED
+    let w := wuConn { s1 with streams := upd s1.streams x1 } L
+    let r := resetStream w.2 x.id
+    (w.1 ++ [.rst x.id 5] ++ r.1, r.2)
   else
     let x2 := { x1 with buf := x1.buf + dlen, bodyBytes := x1.bodyBytes + dlen }
     let s2 := { s1 with held := s1.held + dlen }
@@ -129,12 +145,12 @@ def processData (s0 : St) (id dlen : Nat) (pad : Option Nat) (endS : Bool) : Lis
   | none => dataClosed s id L
   | some x =>
     if x.st != .opn then dataClosed s id L
-    else if x.decl != -1 && x.bodyBytes + dlen > x.decl then
-      -- body.CloseWithError; StreamError PROTOCOL: sc.inflow untouched
-      ([.rst id 1], resetStream { s with leakOD := s.leakOD + L } id)
+    else if x.decl != -1 && x.bodyBytes + dlen > x.decl then dataOverDeclared s id L
     else if L > 0 then
       let av := availOf s.conn x.inflow
-      if av < (L : Int) then ([.rst id 3], resetStream { s with rej := s.rej + L } id)
+      if av < (L : Int) then
+        let r := resetStream { s with rej := s.rej + L } id
+        ([.rst id 3] ++ r.1, r.2)
       else dataAccept s x dlen L endS
     else
       let x4 := if endS then { x with st := .hcr, bodyErr := true } else x
@@ -172,11 +188,11 @@ def handlerClose (s : St) (id : Nat) : String × List Fr × St :=
     not finished, and closeStream -/
 def exitClose (s : St) (x : Stream) : List Fr × St :=
   match x.st with
-  | .opn => ([.resp x.id, .rst x.id 0], closeStream s x)
-  | .hcr => ([.resp x.id], closeStream s x)
+  | .opn => let r := closeStream s x; ([.resp x.id, .rst x.id 0] ++ r.1, r.2)
+  | .hcr => let r := closeStream s x; ([.resp x.id] ++ r.1, r.2)
   | .closed => ([], s)
 
-/-- the handler returns; whatever is still buffered can never be read any more -/
+/-- the handler returns -/
 def handlerExit (s : St) (id : Nat) : String × List Fr × St :=
   match find s.streams id with
   | none => ("x", [], s)
@@ -186,20 +202,19 @@ def handlerExit (s : St) (id : Nat) : String × List Fr × St :=
       let r := exitClose s x
       match find r.2.streams id with
       | none => ("", r.1, r.2)
-      | some y =>
-        ("", r.1, { r.2 with streams := upd r.2.streams { y with handler := false, buf := 0 },
-                             held := r.2.held - (y.buf : Int), leakUC := r.2.leakUC + (y.buf : Int) })
+      | some y => ("", r.1, { r.2 with streams := upd r.2.streams { y with handler := false } })
 
 def processRst (s : St) (id : Nat) : List Fr × St :=
   if id > s.maxId then ([.goaway 1], { s with dead := true })
-  else ([], resetStream s id)
+  else resetStream s id
 
 def processHeaders (s : St) (id : Nat) (decl : Int) (endS : Bool) : List Fr × St :=
   if id % 2 != 1 then ([.goaway 1], { s with dead := true })
   else
     match find s.streams id with
     | some x =>
-      if x.st != .closed then ([.rst id 1], resetStream s id)     -- HEADERS with pseudo fields as trailers
+      if x.st != .closed then
+        let r := resetStream s id; ([.rst id 1] ++ r.1, r.2)     -- HEADERS with pseudo fields as trailers
       else ([.goaway 1], { s with dead := true })
     | none =>
       if id ≤ s.maxId then ([.goaway 1], { s with dead := true })
